@@ -320,7 +320,7 @@ class BaseCfgLine(object):
         """
         is_comment = getattr(self, 'is_comment', None)
         if isinstance(value, str):
-            self._text = self.safe_escape_curly_braces(value)
+            self._text = value
 
             if is_comment is True:
                 # VERY IMPORTANT: due to old behavior, comment parents MUST be self
